@@ -14,7 +14,7 @@ pub fn prop() -> Prop {
     Prop {
         id: "C13",
         level: "exploration",
-        rule: "(a) hook wire_deconvolution on explicit signal arrays: random occupancy, single blocks of every length at every start (seam-straddling included), full ring, full ring minus 1..4 wires, blocks touching the 255/0 seam, differing per-wire lengths, noise; all 31 rotations must give bit-identical per-wire outputs; (b) whole events (forward model and random hit patterns) through main_event_from_signals(..).avalanches() and through the hook-free bank route (simulation run number): rotations {1,5,17,31} quick / all 31 thorough and the row mirror; avalanche multisets compared on (t, wire - 8k, z, wire amplitude, pad amplitude) bit for bit, mirror z within 1e-9 m. Non-trivial = distinct (event, rotation) pairs with >= 1 avalanche (or non-zero output) and a block touching or crossing the 255/0 seam in one of the two placements. Also: pad clusters on the first / last usable rows; one channel of a block 40..140 samples longer with a pulse in the part only it has. Round 6: very busy events (up to ~13 000 avalanches) under rotation and mirror; pads cut to different lengths chip by chip.",
+        rule: "(a) hook wire_deconvolution on explicit signal arrays: random occupancy, single blocks of every length at every start (seam-straddling included), full ring, full ring minus 1..4 wires, blocks touching the 255/0 seam, differing per-wire lengths, noise; all 31 rotations must give bit-identical per-wire outputs; (b) whole events (forward model and random hit patterns) through main_event_from_signals(..).avalanches() and through the hook-free bank route (simulation run number): rotations {1,5,17,31} quick / all 31 thorough and the row mirror; avalanche multisets compared on (t, wire - 8k, z, wire amplitude, pad amplitude) bit for bit, mirror z within 1e-9 m. Non-trivial = distinct (event, rotation) pairs with >= 1 avalanche (or non-zero output) and a block touching or crossing the 255/0 seam in one of the two placements. Also: pad clusters on the first / last usable rows; one channel of a block 40..140 samples longer with a pulse in the part only it has. Round 6: very busy events (up to ~13 000 avalanches) under rotation and mirror; pads cut to different lengths chip by chip. Round 7: clusters on different rows in every column of the busy events; wires cut to different lengths (several blocks, late hits).",
         assumptions: &["hook main_event_from_signals only fills the private arrays", "known findings KF1 / KF2 are matched by exact signature (occupancy == 256 for rotation; a bit-equal pad-amplitude tie in a mismatching (column, bin) for the mirror)"],
         profiles: release_only,
         shards: shards16,
